@@ -292,6 +292,32 @@ def job(a):
                     os.remove(stray)
                     out.append(("file_written_where_the_caller_named_it", f"{work}/{name}", stray))
             return out, {"K": K, "rows": len(final)}
+        if kind == "rerun":
+            # two staged runs IN ONE PROCESS to the SAME output file: run A (this spec; stopped by a failure in stage
+            # case[1], or complete) and then run B (another seed: other rows, other values; stopped in stage case[2], or
+            # complete). What B leaves is B's prefix - nothing the writer remembers about A's writes may stand in for it.
+            stA, stB = case[1], case[2]
+            specB = dict(spec, seed=spec.get("seed", 11) + 1)
+            status, finalB = run_compute(specB, os.path.join(tmp, "final.fits"), True)
+            if status != "ok":
+                return [("unfaulted_run_completes", "ok", finalB)], None
+            K = len(model(spec["mode"], spec["optical"], spec["radio"])) if len(finalB) else 1
+            kb = K if stB is None else boundary_before_stage(spec["mode"], spec["optical"], spec["radio"], stB)
+            if kb is None or (stA is not None and boundary_before_stage(spec["mode"], spec["optical"], spec["radio"], stA) is None) or len(finalB) == 0:
+                return [], {"K": K, "rows": len(finalB)}
+            run_compute(spec, path, True, stage=stA)
+            left = open(path, "rb").read() if os.path.exists(path) else None
+            status, r = run_compute(specB, path, True, stage=stB)
+            if stB is not None and status != "raised":
+                out.append(("exception_propagates", f"injected error from stage {stB}", "compute() returned normally" if status == "ok" else r))
+            if kb == 0:
+                # B stopped before its first boundary: what A left (a file or none) is all there is, byte for byte
+                now = open(path, "rb").read() if os.path.exists(path) else None
+                if now != left:
+                    out.append(("nothing_written_before_first_stage", f"the file run A (stopped in {stA}) left, untouched", "changed" if now is not None else "removed"))
+            else:
+                out += [(c, f"second run to the same file after a run stopped in {stA}: {e}", o) for c, e, o in judge_file(path, specB, kb, finalB)]
+            return out, {"K": K, "rows": len(finalB)}
         status, final = run_compute(spec, os.path.join(tmp, "final.fits"), True)
         if status != "ok":
             return [("unfaulted_run_completes", "ok", final)], None
@@ -414,6 +440,12 @@ def run(ctx):
         for st in faults.INNER_STAGES:
             jobs.append((sp, ("stage", st, "error", "inner")))
             jobs.append((sp, ("nowrite", st, "error", "inner")))
+    # two-run histories on one output file in one process: (stage that stops run A | none) x (stage that stops run B | none)
+    for sp in (base[0], base[1]):
+        sts = [None] + [st for st in faults.STAGES if boundary_before_stage(sp["mode"], sp["optical"], sp["radio"], st) is not None]
+        for stA in sts:
+            for stB in sts:
+                jobs.append((sp, ("rerun", stA, stB)))
     # output file names: the format is FITS whatever the name says (no extension, foreign extensions, upper case)
     for fname in FNAMES:
         sp = dict(base[0], fname=fname)
